@@ -35,7 +35,7 @@ type fsModel struct {
 	failAt                       int // n-th call of failKind fails (0-based); -1 none
 	kindCount                    map[string]int
 	tmpSeq                       int
-	errNotExist, errIO, errOther iface
+	errNotExist, errExist, errIO, errOther iface
 	opLog                        []string
 }
 
@@ -59,6 +59,7 @@ func (in *Interp) fsm() *fsModel {
 			return iface{t: types.NewPointer(in.eng.namedType("errors", "errorString")), v: &cell}
 		}
 		f.errNotExist = mk("file does not exist")
+		f.errExist = mk("file exists")
 		f.errIO = mk("input/output error")
 		f.errOther = mk("operation not permitted")
 		in.fs = f
@@ -170,6 +171,65 @@ func init() {
 		ne := in.fsm().errNotExist
 		return in.tc.Bool(e.t != nil && e.v == ne.v)
 	}
+	fsIntrinsics["os.IsExist"] = func(fr *frame, a []value) value {
+		in := fr.in
+		e := a[0].(iface)
+		ee := in.fsm().errExist
+		return in.tc.Bool(e.t != nil && e.v == ee.v)
+	}
+	// filepath.Glob over the model's files: patterns with at most one '*' (in the last path element) and no other
+	// metacharacter; anything else is refused as an engine error
+	fsIntrinsics["path/filepath.Glob"] = func(fr *frame, a []value) value {
+		in := fr.in
+		pat := a[0].(Str)
+		star := -1
+		for i, t := range pat.b {
+			if !t.isConst() {
+				continue
+			}
+			switch byte(t.cv()) {
+			case '*':
+				if star >= 0 {
+					panic(engineError{"filepath.Glob: pattern with more than one '*' is not modelled"})
+				}
+				star = i
+			case '?', '[', '\\':
+				panic(engineError{"filepath.Glob: pattern metacharacter not modelled"})
+			}
+		}
+		var out []value
+		if star < 0 {
+			if e := in.fsFind(pat); e != nil {
+				out = append(out, e.path)
+			}
+			return tuple{out, nilErr}
+		}
+		pre, suf := pat.b[:star], pat.b[star+1:]
+		for _, e := range in.fsm().files {
+			p := e.path.b
+			if len(p) < len(pre)+len(suf) {
+				continue
+			}
+			mid := p[len(pre) : len(p)-len(suf)]
+			slash := false
+			for _, t := range mid {
+				if t.isConst() && byte(t.cv()) == '/' {
+					slash = true
+				}
+			}
+			if slash {
+				continue
+			}
+			eq := in.tc.And(in.strEq(Str{p[:len(pre)]}, Str{pre}), in.strEq(Str{p[len(p)-len(suf):]}, Str{suf}))
+			if eq.isFalse() {
+				continue
+			}
+			if in.decideBool(eq, "fs-glob") {
+				out = append(out, e.path)
+			}
+		}
+		return tuple{out, nilErr}
+	}
 	fsIntrinsics["os.ReadFile"] = func(fr *frame, a []value) value {
 		in := fr.in
 		f := in.fsm()
@@ -276,7 +336,7 @@ func init() {
 		case e == nil && flag&oCREATE == 0:
 			return tuple{(*value)(nil), f.errNotExist}
 		case e != nil && flag&oCREATE != 0 && flag&oEXCL != 0:
-			return tuple{(*value)(nil), f.errOther}
+			return tuple{(*value)(nil), f.errExist}
 		case e == nil:
 			in.fsStep("create")
 			e = &fsFileEnt{path: path}
